@@ -5,7 +5,7 @@
 From Coq Require Import ZArith List Bool Lia.
 From PCB Require Import lib.Result lib.PyInt lib.GfxPrims gen.Gen_viewport gen.Gen_raster
   model.Matrix model.Viewport model.Raster
-  model.Flood proofs.Matrix_proofs proofs.Viewport_proofs proofs.Raster_safe proofs.Raster_proofs proofs.Paint_import.
+  model.Flood proofs.Matrix_proofs proofs.Viewport_proofs proofs.Raster_safe proofs.Raster_proofs proofs.Paint_import proofs.History_proofs.
 Import ListNotations.
 Open Scope Z_scope.
 
@@ -206,6 +206,25 @@ Theorem C30_active_page_history : forall l st p,
   nth_error (g_pages (exec_all st l)) p = nth_error (g_pages st) p.
 Proof. exact history_other_pages. Qed.
 Print Assumptions C30_active_page_history.
+
+(* histories of graphics statements AND page selections (SCREEN ,,apage,vpage; the selection re-points the one
+   viewport object to the page, it is not a per-page setting, and copies or changes no pixel): whatever pixel of
+   whatever page differs after the history, some statement of the history was executed while THAT page was the
+   active page and the pixel lay inside the viewport in force while that statement drew; the state invariant
+   holds at the end *)
+Theorem C30_history_pages : forall l st,
+  good_state st -> g_text st = false -> hsteps_ok st l ->
+  good_state (hrun st l) /\ g_text (hrun st l) = false /\
+  forall p y x, cellZ (nth p (g_pages (hrun st l)) []) y x <> cellZ (nth p (g_pages st) []) y x ->
+                touched st l p x y.
+Proof. exact history_cells. Qed.
+Print Assumptions C30_history_pages.
+
+Theorem C30_select_keeps : forall st a,
+  g_pages (hexec st (HSelect a)) = g_pages st /\ g_vp (hexec st (HSelect a)) = g_vp st /\
+  g_text (hexec st (HSelect a)) = g_text st /\ (good_state st -> good_state (hexec st (HSelect a))).
+Proof. exact select_keeps. Qed.
+Print Assumptions C30_select_keeps.
 
 (* text mode: every graphics statement raises Illegal function call (5) and the state is unchanged; the guard is
    the regenerated first statement of each statement method *)
